@@ -767,7 +767,20 @@ func (in *Interp) valEq(l, r Val, st *State, f *Frame, pos token.Pos) Term {
 		}
 		return Eq(a.T, b.T)
 	case ArrV:
-		return Eq(a.T, r.(ArrV).T)
+		b := r.(ArrV)
+		n := a.N
+		if n == 0 {
+			n = b.N
+		}
+		if n > 0 && n <= 64 {
+			// Go compares the N elements; SMT array equality would also compare unused indices
+			var cs []Term
+			for i := int64(0); i < n; i++ {
+				cs = append(cs, Eq(Select(a.T, IntLit(i)), Select(b.T, IntLit(i))))
+			}
+			return And(cs...)
+		}
+		return Eq(a.T, b.T)
 	case StructV:
 		b := r.(StructV)
 		var cs []Term
